@@ -47,7 +47,7 @@ C07 = {
  "technique": "deterministic simulation with fault injection: seeded search over operation histories and fault sequences (rejected assignments, failing computations, injected kernel failures) on one real estimator object, checked step by step against an executable reference model (fresh object with the reported attribute values)",
  "level_claimed": {
   "category": "exploration",
-  "text": "Seeded exploration of histories x classes x fault positions: every abstract history of length <= 2 (quick) / <= 3 (thorough) over the operation alphabet is visited for all twelve classes, real and complex data, even and odd lengths, warm and cold caches, plus long random swarm-configured histories in fault-free, natural-fault, injected-fault and mixed configurations. Each psd read is compared with a freshly constructed object; df, len(frequencies()) and re-assignment invariance are checked along the way. A clean batch is evidence, not proof; every failure is minimised and replayed in a fresh process before it is reported.",
+  "text": "Seeded exploration of histories x classes x fault positions: every abstract history of length <= 2 (quick) / <= 3 (thorough) over the operation alphabet is visited for all twelve classes, real and complex data, even and odd lengths, warm and cold caches, plus long random swarm-configured histories in fault-free, natural-fault, injected-fault and mixed configurations, runs in which two or three objects of different classes are interleaved by the seeded scheduler (cross-object leaks), and histories on the bare Range axis helper. Each psd read is compared with a freshly constructed object (same process; for a seed-selected subset also in a pristine forked process that never ran any estimator code); df, len(frequencies()) and re-assignment invariance are checked along the way. A clean batch is evidence, not proof; every failure is minimised and replayed in a fresh process before it is reported.",
   "design_ref": "DESIGN.md section 4"
  },
  "level_note": "Trusted base: numpy/scipy/LAPACK determinism with one BLAS thread; the reference is the same estimator code evaluated on a fresh object, so the check decides staleness and internal consistency, not numerical correctness. Faults are injected at kernel granularity only."
